@@ -21,6 +21,11 @@ const HOSTS = {
   div:       { tpl: (V) => `<div ${V} />`, dir: null, props: () => ({}) }, // which directive a non-form element gets is not specified
   Comp:      { tpl: (V) => `<Comp ${V} />`, component: true, props: () => ({}) },
   CompId:    { tpl: (V) => `<Comp id="a" ${V} />`, component: true, props: () => ({ id: 'a' }) },
+  // only in the v-models differential space: a spread that collides with the generated keys, before / after
+  CompSpreadBefore: { tpl: (V) => `<Comp {...sv} ${V} />`, component: true, lonly: true },
+  CompSpreadAfter:  { tpl: (V) => `<Comp ${V} {...sv} />`, component: true, lonly: true },
+  CompListenerBefore: { tpl: (V) => `<Comp onUpdate:modelValue={h2} modelValue="own" ${V} />`, component: true, lonly: true },
+  inputSpreadBefore: { tpl: (V) => `<input {...sv} ${V} />`, lonly: true },
 };
 const TARGETS = {
   mv:   { src: 'mv', read: (out) => out.read().mv, init: (e) => e.mv0 },
@@ -51,7 +56,7 @@ function modelValueSrc(m) {
 // the array literal of a v-models entry (same text as the array form of v-model)
 function entrySrc(m) { return modelValueSrc(Object.assign({}, m, { forceArray: true })).slice(1, -1); }
 
-const PRELUDE = E.PRELUDE + 'const kk = "p";\n';
+const PRELUDE = E.PRELUDE + 'const kk = "p";\nconst sv = { modelValue: "spv", arg: "spArg", "onUpdate:modelValue": h1, "onUpdate:arg": h2, dynArg: "spDyn" };\n';
 
 function render(c) {
   const h = HOSTS[c.host];
@@ -171,14 +176,14 @@ function spaces(tier) {
   return [
     {
       name: 'M:v-model',
-      bounds: { hosts: Object.keys(HOSTS), targets: Object.keys(TARGETS), argument_forms: Object.keys(ARGS), modifier_forms: Object.keys(MODFORMS), options: 'mergeProps × optimize' },
-      *gen() { for (const host of Object.keys(HOSTS)) for (const m of singles()) for (const mp of [true, false]) for (const opt of [false, true]) yield { sp: 'M', host, m, mp, opt }; },
+      bounds: { hosts: Object.keys(HOSTS).filter((h) => !HOSTS[h].lonly), targets: Object.keys(TARGETS), argument_forms: Object.keys(ARGS), modifier_forms: Object.keys(MODFORMS), options: 'mergeProps × optimize' },
+      *gen() { for (const host of Object.keys(HOSTS).filter((h) => !HOSTS[h].lonly)) for (const m of singles()) for (const mp of [true, false]) for (const opt of [false, true]) yield { sp: 'M', host, m, mp, opt }; },
     },
     {
       name: 'L:v-models',
-      bounds: { hosts: ['Comp', 'CompId', 'input', 'select'], entries: ENTRY.map((m) => entrySrc(m)), max_length: 3, rule: 'entries with pairwise distinct argument names; differential against the same-order v-model attributes' },
+      bounds: { hosts: ['Comp', 'CompId', 'input', 'select', 'CompSpreadBefore', 'CompSpreadAfter', 'CompListenerBefore', 'inputSpreadBefore'], entries: ENTRY.map((m) => entrySrc(m)), max_length: 3, rule: 'entries with pairwise distinct argument names; differential against the same-order v-model attributes' },
       *gen() {
-        for (const host of ['Comp', 'CompId', 'input', 'select']) for (const seq of sequences(ENTRY.length, 3, { minLen: 1, ok: (idx, pos) => !idx.slice(0, pos).some((j) => argOf(j) === argOf(idx[pos])) })) {
+        for (const host of ['Comp', 'CompId', 'input', 'select', 'CompSpreadBefore', 'CompSpreadAfter', 'CompListenerBefore', 'inputSpreadBefore']) for (const seq of sequences(ENTRY.length, 3, { minLen: 1, ok: (idx, pos) => !idx.slice(0, pos).some((j) => argOf(j) === argOf(idx[pos])) })) {
           for (const mp of [true, false]) for (const opt of thorough ? [false, true] : [false]) yield { sp: 'L', host, ms: seq.map((i) => ENTRY[i]), mp, opt };
         }
       },
